@@ -1716,6 +1716,15 @@ class Optimizer:
             <= self.time_consts["max_consumed_culled_kcals_each_month"][month]
         )
 
+        # The meat eaten up to and including this month cannot exceed the meat slaughtered so far:
+        # meat_end is the total minus everything eaten so far, so it must stay at or above the
+        # part of the total which has not been slaughtered yet.
+        conditions["Meat_Eaten_Cumulative_Maximum"] = (
+            variables["meat_end"][month]
+            >= self.consts_for_optimizer["meat_summed_consumption"]
+            - self.time_consts["max_consumed_culled_kcals_each_month"][month]
+        )
+
         return conditions
 
     def add_meat_to_model_no_storage(self, month, variables):
